@@ -48,6 +48,9 @@ P = {
  "C18": dict(technique="runtime monitoring: lock-step differential EmbeddedFS vs PhysicalFS (and std::fs) over the completely enumerated path set",
              text="Exploration with an exhaustively enumerated, finite path set: every embedded file, implied directory, the root, absent siblings, prefixes and extensions of existing names and paths below files of two fixtures; all observers (full snapshots at three read-buffer sizes), every public path operation and every mutator (must be refused, as NotSupported where a writable backend would accept, without effect).",
              ref="§4 C18"),
+ "C19": dict(technique="runtime monitoring: before/after metadata monitor around every timestamp setter + pass-through comparison with the served entry",
+             text="Exploration: generated setter sequences over the three fields, files and directories, upper-only / lower-only / copied-up entries on Mem, Phys, Alt, Ovl and stackings, with a host-calibrated value set for PhysicalFS; metadata before/after each setter decides round-trip, independence of the other fields/len/type/bytes, not-supported-without-effect, creation time across appends and adapter pass-through.",
+             ref="§4 C19"),
 }
 
 NOT_YET = {
